@@ -106,7 +106,7 @@ class Prepared(object):
             return self._call(ctx.drv, expr, only, pattern)
         except DriverCrash as e:
             sig = 'crash:' + crash_signature(e.stderr)
-            kf = ctx.findings.match(ctx.prop.ID, sig) or ctx.findings.match('C03', sig)
+            kf = ctx.findings.match_any(sig)
             if kf is None or kf.get('fallback') != 'ndebug':
                 raise
             ctx.known_seen[kf['id']] += 1
